@@ -159,10 +159,15 @@ Inv_Lists == Mode = "lists" => Items = expect
 GetNames == << <<97>>, <<97, 98>>, NIL_KEY, <<98, 98>> >>
 Inv_HasNil == Mode = "lists" =>
     (HasNil(s, Items) <=> \E i \in 1..Len(expect) : expect[i].k = "Attr" /\ Slice(s, expect[i].klo, expect[i].khi) = NIL_KEY)
+\* toggling the check never loses an item: with the check off everywhere the same attributes come out, in the same places
+Inv_Toggle == LET T == AttrAllPat(s, pos, html, <<TRUE, FALSE, TRUE>>)
+                  U == AttrAll(s, pos, html, FALSE) IN
+              \A i \in 1..Len(T) : T[i].k = "Attr" => (i <= Len(U) /\ U[i] = T[i])
 ItemRow(it) == <<it.k, it.form, it.klo, it.khi, it.vlo, it.vhi, it.e, it.p1, it.p2>>
 Inv_Emit ==
     Emit => PrintT(<<"REPLAY", ToJson([s |-> s, pos |-> pos, html |-> IF html THEN 1 ELSE 0, chk |-> IF chk THEN 1 ELSE 0,
                                        items |-> [i \in 1..Len(Items) |-> ItemRow(Items[i])],
                                        nil |-> IF HasNil(s, Items) THEN 1 ELSE 0,
+                                       tog |-> LET T == AttrAllPat(s, pos, html, <<TRUE, FALSE, TRUE>>) IN [i \in 1..Len(T) |-> ItemRow(T[i])],
                                        tga |-> [i \in 1..Len(GetNames) |-> TryGet(s, pos, GetNames[i])]])>>)
 =============================================================================
